@@ -97,6 +97,8 @@ pub struct Side {
     /// times a reset in SYN-RECEIVED sent the passive endpoint back to LISTEN
     pub returned_to_listen: u64,
     pub released: bool,
+    /// reference (SND.WND, SND.WL1, SND.WL2) kept by `window_bookkeeping_rule`; None = take the endpoint's own
+    pub wmodel: Option<(u16, u32, u32)>,
     pub iss: u32,
     pub submitted: Vec<u8>,
     pub delivered: Vec<u8>,
@@ -126,6 +128,8 @@ pub struct Pair {
     pub obs: Vec<CallObs>,
     pub next_uid: u64,
     pub panic: Option<String>,
+    /// first breach of the send-window bookkeeping rule (see `window_bookkeeping_rule`), if any
+    pub window_rule_broken: Option<String>,
     pub out_of_order_arrivals: u64,
     pub drops: u64,
     pub dups: u64,
@@ -164,6 +168,7 @@ impl Side {
             passive: false,
             returned_to_listen: 0,
             released: false,
+            wmodel: None,
             iss,
             submitted: vec![],
             delivered: vec![],
@@ -200,6 +205,7 @@ impl Pair {
             obs: vec![],
             next_uid: 1,
             panic: None,
+            window_rule_broken: None,
             out_of_order_arrivals: 0,
             drops: 0,
             dups: 0,
@@ -240,6 +246,16 @@ impl Pair {
     fn finish_obs(&mut self, mut o: CallObs) {
         o.after = self.sides[o.side].state();
         o.snap_after = self.sides[o.side].snap();
+        if o.kind == CallKind::Arrive {
+            let side = o.side;
+            let mut model = self.sides[side].wmodel;
+            if let Some(v) = window_bookkeeping_rule(&o, &mut model) {
+                if self.window_rule_broken.is_none() {
+                    self.window_rule_broken = Some(v);
+                }
+            }
+            self.sides[side].wmodel = model;
+        }
         self.obs.push(o);
     }
 
@@ -542,4 +558,63 @@ pub fn seq_leq(a: u32, b: u32) -> bool {
 
 pub fn is_prefix(short: &[u8], long: &[u8]) -> bool {
     short.len() <= long.len() && long[..short.len()] == *short
+}
+
+
+fn sq_lt(a: u32, b: u32) -> bool {
+    (b.wrapping_sub(a) as i32) > 0
+}
+fn sq_leq(a: u32, b: u32) -> bool {
+    (b.wrapping_sub(a) as i32) >= 0
+}
+
+/// RFC 9293 3.10.7.4, ESTABLISHED, ACK processing: "If SND.UNA =< SEG.ACK =< SND.NXT, the send window should be
+/// updated. If (SND.WL1 < SEG.SEQ or (SND.WL1 = SEG.SEQ and SND.WL2 =< SEG.ACK)), set SND.WND <- SEG.WND, set
+/// SND.WL1 <- SEG.SEQ, and set SND.WL2 <- SEG.ACK." - in circular arithmetic. This is what "the window the peer
+/// last advertised" means once segments can be reordered.
+///
+/// `model` is the reference (WND, WL1, WL2). It follows the rule across the calls that can be judged - one
+/// arriving segment being the only thing the call processes while the connection stays ESTABLISHED: ACK without
+/// SYN/RST/FIN, exactly in order (SEG.SEQ = RCV.NXT, nothing queued ahead), receive window open - and is reset
+/// to the endpoint's own values by every other arrival. Only SND.WND is compared (a lagging WL1/WL2 that never
+/// changes which window is in force is not held against the endpoint).
+pub fn window_bookkeeping_rule(o: &CallObs, model: &mut Option<(u16, u32, u32)>) -> Option<String> {
+    let own = |s: &TcbSnapshot| (s.snd_wnd, s.snd_wl1, s.snd_wl2);
+    let (b, a) = match (o.snap_before.as_ref(), o.snap_after.as_ref()) {
+        (Some(b), Some(a)) => (b, a),
+        _ => {
+            *model = None;
+            return None;
+        }
+    };
+    let judgeable = b.state == State::Established
+        && a.state == State::Established
+        && o.flags & 16 != 0
+        && o.flags & (1 | 2 | 4) == 0
+        && o.seg_seq == b.rcv_nxt
+        && b.heap_len == 0
+        && b.rcv_wnd != 0;
+    if !judgeable {
+        *model = Some(own(a));
+        return None;
+    }
+    let m = model.unwrap_or(own(b));
+    if !(sq_leq(b.snd_una, o.seg_ack) && sq_leq(o.seg_ack, b.snd_nxt)) {
+        // old duplicate, or ACK of something not sent: the window stays as it was
+        *model = Some(m);
+        if a.snd_wnd != b.snd_wnd {
+            return Some(format!("an ACK outside SND.UNA..=SND.NXT ({} vs {}..={}) changed SND.WND from {} to {}", o.seg_ack, b.snd_una, b.snd_nxt, b.snd_wnd, a.snd_wnd));
+        }
+        return None;
+    }
+    let fresh = sq_lt(m.1, o.seg_seq) || (m.1 == o.seg_seq && sq_leq(m.2, o.seg_ack));
+    let want = if fresh { (o.seg_wnd, o.seg_seq, o.seg_ack) } else { m };
+    *model = Some(want);
+    if a.snd_wnd != want.0 {
+        return Some(format!(
+            "segment [ACK] seq {} ack {} wnd {} arrived in order (SND.UNA {} SND.NXT {}); by RFC 9293's update rule the window in force is {} (reference WL1 {} WL2 {} before the segment, which is {} by that rule), the endpoint has SND.WND {} WL1 {} WL2 {}",
+            o.seg_seq, o.seg_ack, o.seg_wnd, b.snd_una, b.snd_nxt, want.0, m.1, m.2, if fresh { "fresh" } else { "old" }, a.snd_wnd, a.snd_wl1, a.snd_wl2
+        ));
+    }
+    None
 }
